@@ -114,6 +114,9 @@ pub struct Inj {
     /// kind: everything injected so far in that mode at that instruction is withdrawn
     #[serde(default)]
     pub retract: bool,
+    /// after this injection the module is encoded once (output discarded) before the plan continues
+    #[serde(default)]
+    pub encode_after: bool,
 }
 
 #[derive(Clone, Debug, Serialize, Deserialize)]
@@ -411,6 +414,13 @@ pub fn apply_and_encode(bytes: &[u8], plan: &[Inj], api: Api, encodes: usize) ->
                     }
                 }
             }
+            if inj.encode_after {
+                if let Some(c) = comp_holder.as_mut() {
+                    let _ = c.encode();
+                } else {
+                    let _ = module_holder.as_mut().unwrap().encode();
+                }
+            }
             // withdraw what was injected in this mode at this instruction
             if inj.retract {
                 if let Some(m) = inj.mode.imode() {
@@ -693,7 +703,7 @@ fn c15_plans(n_ops: usize, p: usize) -> Vec<Vec<Inj>> {
             sites.push((at, m));
         }
     }
-    let mk = |k: usize, s: &(usize, SMode)| Inj { at: s.0, mode: s.1, c: 0x7100 + k as i32, drop_first: false, retract: false };
+    let mk = |k: usize, s: &(usize, SMode)| Inj { at: s.0, mode: s.1, c: 0x7100 + k as i32, drop_first: false, retract: false, encode_after: false };
     let compatible = |a: &(usize, SMode), b: &(usize, SMode)| -> bool {
         // alternate and removal on one site: a removal that comes LAST leaves nothing of the replacement
         // requested before it (the caller's last word is "remove"; `empty_alternate` is documented as
@@ -799,7 +809,7 @@ fn c21_cases(tier: Tier) -> Vec<Case> {
             Err(_) => continue,
         };
         let f = &m.funcs[0];
-        let mk = |k: usize, at: usize, empty: bool| Inj { at, mode: if empty { SMode::EmptyBlockAlt } else { SMode::BlockAlt }, c: 0x7200 + k as i32, drop_first: matches!(roles[at], Role::If), retract: false };
+        let mk = |k: usize, at: usize, empty: bool| Inj { at, mode: if empty { SMode::EmptyBlockAlt } else { SMode::BlockAlt }, c: 0x7200 + k as i32, drop_first: matches!(roles[at], Role::If), retract: false, encode_after: false };
         let region = |at: usize| -> (usize, usize) {
             match roles[at] {
                 Role::Else => (at, f.end_of[at]),
@@ -832,11 +842,22 @@ fn c21_cases(tier: Tier) -> Vec<Case> {
                         continue;
                     }
                     let mut p2 = pl.clone();
-                    p2.push(Inj { at, mode, c: 0x7300, drop_first: false, retract: false });
+                    p2.push(Inj { at, mode, c: 0x7300, drop_first: false, retract: false, encode_after: false });
                     with_probe.push(p2);
                 }
             }
         }
+        // two alternates requested in two rounds: the later-listed (inner / later) one first, an encoding,
+        // then the other one - the final encoding must be what both requested together give
+        let two_rounds: Vec<Vec<Inj>> = plans
+            .iter()
+            .filter(|pl| pl.len() == 2)
+            .map(|pl| {
+                let mut first = pl[1].clone();
+                first.encode_after = true;
+                vec![first, pl[0].clone()]
+            })
+            .collect();
         // the same with the ordinary probe injected BEFORE the block alternates (order of API calls)
         let reordered: Vec<Vec<Inj>> = with_probe
             .iter()
@@ -870,7 +891,7 @@ fn c21_cases(tier: Tier) -> Vec<Case> {
                 for mode in modes {
                     for first in [false, true] {
                         let mut p2 = pl.clone();
-                        let probe = Inj { at, mode, c: 0x7301, drop_first: false, retract: false };
+                        let probe = Inj { at, mode, c: 0x7301, drop_first: false, retract: false, encode_after: false };
                         if first {
                             p2.insert(0, probe);
                         } else {
@@ -881,7 +902,7 @@ fn c21_cases(tier: Tier) -> Vec<Case> {
                 }
             }
         }
-        for (k, plan) in plans.into_iter().chain(with_probe.into_iter()).chain(reordered.into_iter()).chain(with_inner.into_iter()).enumerate() {
+        for (k, plan) in plans.into_iter().chain(with_probe.into_iter()).chain(reordered.into_iter()).chain(with_inner.into_iter()).chain(two_rounds.into_iter()).enumerate() {
             let api = [Api::IterMode, Api::ModAt, Api::CompMode, Api::IterAddInstrAt, Api::IterInjectAt][(pi + k) % 5];
             cases.push(Case { program: prog.clone(), plan, api });
         }
@@ -893,7 +914,7 @@ pub fn check_c21(tier: Tier) -> i32 {
     let mut run = Run::new("C21", tier, "exploration");
     let cases = c21_cases(tier);
     run.rule = format!(
-        "ALL function bodies with <= {} nodes / nesting <= 3 over block, loop, if, if-else, mark, nop, br_if x ALL plans of 1 or 2 block-alternates (non-empty `[drop;] i32.const c; drop` / empty) on block, loop, if, else openers - nested and sequential - plus every placement of one before/after probe outside the replaced regions (injected after and, separately, before the block alternates), plus every placement of one special-mode probe (block-entry, block-exit, semantic-after) on a construct strictly inside a replaced region (a body that is gone is never entered, left or passed: the probe must vanish with the region), rotated over 5 API paths. Oracle: an independent matcher deletes [opener ..= matching end] (else: [else .. end)) and inserts the replacement at the opener's place (outermost replacement wins for nested ones); the decoded instruction list must equal that, and the output must validate (a replaced `if` consumes its condition with `drop`).",
+        "ALL function bodies with <= {} nodes / nesting <= 3 over block, loop, if, if-else, mark, nop, br_if x ALL plans of 1 or 2 block-alternates (non-empty `[drop;] i32.const c; drop` / empty) on block, loop, if, else openers - nested and sequential - plus every placement of one before/after probe outside the replaced regions (injected after and, separately, before the block alternates), plus every placement of one special-mode probe (block-entry, block-exit, semantic-after) on a construct strictly inside a replaced region (a body that is gone is never entered, left or passed: the probe must vanish with the region), plus every plan of two alternates made in two rounds with an encoding in between, rotated over 5 API paths. Oracle: an independent matcher deletes [opener ..= matching end] (else: [else .. end)) and inserts the replacement at the opener's place (outermost replacement wins for nested ones); the decoded instruction list must equal that, and the output must validate (a replaced `if` consumes its condition with `drop`).",
         tier.pick(3, 4)
     );
     run_cases_static(&mut run, "block alternates", cases, true);
@@ -1050,7 +1071,7 @@ pub fn check_c22(tier: Tier) -> i32 {
         for mode in modes {
             for api in ALL_APIS {
                 if matches!(mode, SMode::FuncEntry | SMode::FuncExit) {
-                    cases.push(C22Case { program: prog.clone(), inj: Inj { at: 0, mode, c: 0x7400, drop_first: false, retract: false }, api });
+                    cases.push(C22Case { program: prog.clone(), inj: Inj { at: 0, mode, c: 0x7400, drop_first: false, retract: false, encode_after: false }, api });
                     continue;
                 }
                 // one site per distinct instruction role (+ every site in the thorough tier)
@@ -1058,7 +1079,7 @@ pub fn check_c22(tier: Tier) -> i32 {
                 for (at, r) in roles.iter().enumerate() {
                     // (every instruction in both tiers: the space is tiny)
                     let _ = (&mut seen, tier);
-                    cases.push(C22Case { program: prog.clone(), inj: Inj { at, mode, c: 0x7400, drop_first: matches!(r, Role::If) && mode == SMode::BlockAlt, retract: false }, api });
+                    cases.push(C22Case { program: prog.clone(), inj: Inj { at, mode, c: 0x7400, drop_first: matches!(r, Role::If) && mode == SMode::BlockAlt, retract: false, encode_after: false }, api });
                 }
             }
         }
@@ -1117,7 +1138,7 @@ pub fn check_c22(tier: Tier) -> i32 {
                 seconds.push(c.inj.at);
             }
             for at2 in seconds {
-                let o = Inj { at: at2, mode: SMode::Before, c: 0x7401, drop_first: false, retract: false };
+                let o = Inj { at: at2, mode: SMode::Before, c: 0x7401, drop_first: false, retract: false, encode_after: false };
                 let same = if at2 == c.inj.at && !func_level { "same instruction" } else { "another instruction" };
                 seqs.push((Case { program: c.program.clone(), plan: vec![c.inj.clone(), o.clone()], api: c.api }, c.inj.c, format!("followed by before on {}", same)));
                 seqs.push((Case { program: c.program.clone(), plan: vec![o, c.inj.clone()], api: c.api }, c.inj.c, format!("preceded by before on {}", same)));
@@ -1146,7 +1167,7 @@ pub fn check_c22(tier: Tier) -> i32 {
                                 continue;
                             }
                         }
-                        let o = Inj { at: at2, mode: mode2, c: 0x7403, drop_first: matches!(roles[at2], Role::If) && mode2 == SMode::BlockAlt, retract: false };
+                        let o = Inj { at: at2, mode: mode2, c: 0x7403, drop_first: matches!(roles[at2], Role::If) && mode2 == SMode::BlockAlt, retract: false, encode_after: false };
                         seqs.push((Case { program: c.program.clone(), plan: vec![c.inj.clone(), o.clone()], api: c.api }, c.inj.c, String::new()));
                         seqs.push((Case { program: c.program.clone(), plan: vec![o, c.inj.clone()], api: c.api }, c.inj.c, String::new()));
                     }
@@ -1157,7 +1178,7 @@ pub fn check_c22(tier: Tier) -> i32 {
                     if at2 == c.inj.at || !reflected_alone.contains(&(pi, c.inj.mode.name().to_string(), at2, c.api.name().to_string())) {
                         continue;
                     }
-                    let w = Inj { at: at2, mode: c.inj.mode, c: 0x7402, drop_first: matches!(r2, Role::If) && c.inj.mode == SMode::BlockAlt, retract: true };
+                    let w = Inj { at: at2, mode: c.inj.mode, c: 0x7402, drop_first: matches!(r2, Role::If) && c.inj.mode == SMode::BlockAlt, retract: true, encode_after: false };
                     seqs.push((Case { program: c.program.clone(), plan: vec![c.inj.clone(), w], api: c.api }, c.inj.c, "followed by a withdrawn injection of the same mode elsewhere".to_string()));
                 }
             }
@@ -1208,7 +1229,7 @@ pub fn reencode_family(run: &mut Run, tier: Tier) {
                     SMode::FuncEntry | SMode::FuncExit => at == 0,
                 };
                 if ok {
-                    singles.push(Inj { at, mode, c: 0x7500, drop_first: matches!(r, Role::If) && mode == SMode::BlockAlt, retract: false });
+                    singles.push(Inj { at, mode, c: 0x7500, drop_first: matches!(r, Role::If) && mode == SMode::BlockAlt, retract: false, encode_after: false });
                 }
             }
         }
